@@ -70,6 +70,7 @@ type Opts struct {
 	NoTime       bool
 	NoHostFns    bool
 	AllowExport  bool
+	ControlHeavy bool // bias towards loops, branches, returns and function literals
 }
 
 // G is the generation context.
@@ -395,7 +396,11 @@ func (g *G) stmt() *lang.Node {
 	if inFn {
 		wFn = 14
 	}
-	switch g.weighted("stmt", 30, 14, 8, 6, 10, 7, 8, 9, 8, wRet, wBrk, 1, wFn, 9) {
+	w := []int{30, 14, 8, 6, 10, 7, 8, 9, 8, wRet, wBrk, 1, wFn, 9}
+	if g.o.ControlHeavy {
+		w = []int{10, 6, 3, 3, 4, 16, 16, 12, 4, 3 * wRet, 4 * wBrk, 2, 2 * wFn, 4}
+	}
+	switch g.weighted("stmt", w...) {
 	case 0:
 		return g.defineStmt()
 	case 1:
